@@ -19,10 +19,36 @@ let tokenizer line =
   | None -> "NONE"
   | Some toks -> show_strs toks
 
+(* a list of lines: each line is terminated by -1 *)
+let split_lines (l : int list) : int list list =
+  let rec go cur acc = function
+    | [] -> List.rev acc
+    | (-1) :: r -> go [] (List.rev cur :: acc) r
+    | x :: r -> go (x :: cur) acc r in
+  go [] [] l
+let show_tok (t : tok) = string_of_int (int_of_n (kind_code t.tk)) ^ ":" ^ show_str t.tv
+let show_toks l = String.concat " | " (List.map show_tok l)
+(* tokens on input: kind -2 cp cp ... -1 *)
+let parse_toks (l : int list) : tok list =
+  List.map (fun t -> match t with
+     | k :: (-2) :: v -> { tk = kind_of_code (n_of_int k); tv = str_of_ints v }
+     | _ -> failwith "bad token") (split_lines l)
+let read_mode line =
+  match vsg_read (List.map str_of_ints (split_lines (ints line))) with
+  | None -> "NONE"
+  | Some toks -> show_toks toks
+let emit_mode line = show_strs (get_lines (parse_toks (ints line)))
+let fbl_mode line = show_toks (fix_blank_lines (parse_toks (ints line)))
+let ftw_mode line = show_toks (fix_trailing_whitespace (parse_toks (ints line)))
+
 let () =
   let mode = if Array.length Sys.argv > 1 then Sys.argv.(1) else "tokenizer" in
   let f = match mode with
     | "tokenizer" -> tokenizer
+    | "read" -> read_mode
+    | "emit" -> emit_mode
+    | "fbl" -> fbl_mode
+    | "ftw" -> ftw_mode
     | _ -> failwith ("unknown mode " ^ mode) in
   try
     while true do
